@@ -442,10 +442,138 @@ def run_conc(prop, scenarios, work, tag):
     return res
 
 
+# protocol models: kind -> (MC module, exhaustive cfgs quick, exhaustive cfgs thorough, simulation cfgs, variant cfgs)
+CONC_MODELS = {
+    "ping": ("MCPingProto", ["ping_q1", "ping_q2", "ping_q3"], ["ping_t1", "ping_t2"], ["ping_sim"],
+             ["ping_var_noreset", "ping_var_close", "ping_var_marker"]),
+}
+
+
+def conc_project(events):
+    out = []
+    for ev in events:
+        e = ev.get("e")
+        if e == "y" and ev.get("l") != "start":
+            out.append(("y", ev["t"], ev["l"]))
+        elif e == "call":
+            out.append(("call", ev["t"], ev["n"], ev["op"]))
+        elif e == "ret":
+            out.append(("ret", ev["t"], ev["n"], ev["op"], ev["r"]))
+        elif e == "lcall":
+            out.append(("lcall", ev["op"], ev["k"]))
+        elif e == "lret":
+            out.append(("lret", ev["op"], ev["k"], ev["r"], ev.get("occupied", -1)))
+        elif e == "cb":
+            out.append(("cb", ev["p"]))
+        elif e in ("poll",):
+            out.append(("poll", ev["f"], ev["woken"]))
+        elif e == "fdrop":
+            out.append(("fdrop", ev["f"]))
+        elif e == "iter":
+            out.append(("iter",))
+        elif e == "end":
+            out.append(("end", ev.get("stuck", 0)))
+    return out
+
+
+def model_schedules(kind, prop, tier, seed, work, res):
+    """behaviours (schedules) of the protocol model -> scenarios for drive_sched, with the events the model predicts"""
+    mod, _, _, sims, _ = CONC_MODELS[kind]
+    scns, preds = [], {}
+    n = 60 if tier == "quick" else 1500
+    for cfg in sims:
+        meta = os.path.join(work, "simmeta_" + cfg)
+        cmd = ["tlc", "-workers", "4", "-simulate", "num=%d" % n, "-depth", "400", "-seed", str(seed), "-metadir", meta,
+               "-cleanup", "-noGenerateSpecTE", "-config", "mc/%s.cfg" % cfg, mod + ".tla"]
+        p = sh(cmd, cwd=SPEC, env=tlc_env(), timeout=900, check=False)
+        shutil.rmtree(meta, ignore_errors=True)
+        if "is violated" in p.stdout:
+            cex = "%s/replays/%s_sim_%s.txt" % (ROOT, prop, cfg)
+            os.makedirs(ROOT + "/replays", exist_ok=True)
+            open(cex, "w").write(p.stdout[-200000:])
+            res.viol.append({"prop": prop, "scn": "model-sim:" + cfg, "clauses": ["model:" + ",".join(re.findall(r"Invariant (\w+) is violated", p.stdout))],
+                             "replay": cex, "first_line": 0})
+        seen = set()
+        for m in re.finditer(r'<<"SCHED", "(.*)">>', p.stdout):
+            try:
+                b = json.loads(json.loads('"' + m.group(1) + '"'))
+            except Exception:
+                continue
+            key = json.dumps(b["sched"]) + json.dumps(b["scripts"])
+            if key in seen:
+                continue
+            seen.add(key)
+            sid = "ms_%s_%d" % (cfg, len(scns))
+            scripts = b["scripts"]
+            threads = {str(i + 1): scripts[i] for i in range(len(scripts))}
+            scn = {"id": sid, "kind": kind, "threads": threads, "loop": ["dispatch"] * b["ndisp"],
+                   "schedule": b["sched"][:-1], "from_model": 1}
+            for k in ("cap", "limit"):
+                if k in b and b[k] not in (None, -1):
+                    scn[k] = b[k]
+            scns.append(scn)
+            preds[sid] = b["hist"]
+        mm = re.search(r"The number of states generated: (\d+)", p.stdout)
+        if mm:
+            res.states += int(mm.group(1))
+            res.transitions += int(mm.group(1))
+        res.cmds.append("tlc -simulate num=%d -config mc/%s.cfg %s.tla -> drive_sched -> ConcTrace" % (n, cfg, mod))
+    return scns, preds
+
+
+def conc_conformance(preds, trace_path, res, label):
+    real, cur = {}, None
+    for line in open(trace_path):
+        ev = json.loads(line)
+        if ev["e"] == "reset":
+            cur = ev["id"]
+            real[cur] = []
+        if cur:
+            real[cur].append(ev)
+    same = div = 0
+    for sid, hist in preds.items():
+        a, b = conc_project(hist), conc_project(real.get(sid, []))
+        if a == b:
+            same += 1
+        else:
+            div += 1
+            i = next((k for k in range(min(len(a), len(b))) if a[k] != b[k]), min(len(a), len(b)))
+            if div <= 3:
+                res.notes.append("DRIFT %s at projected event %d: model %s / real %s" % (
+                    sid, i, a[i] if i < len(a) else None, b[i] if i < len(b) else None))
+    res.conform = [res.conform[0] + same, res.conform[1], res.conform[2] + div]
+    res.notes.append("protocol-model conformance (%s): %d schedules reproduced event-for-event on real threads, %d diverge" % (label, same, div))
+    if div:
+        print("DRIFT: %d of %d schedules of the %s protocol model are not reproduced event-for-event" % (div, len(preds), label))
+
+
 def engine_conc(prop, tier, seed, work):
     import gen_sched
     res = Result()
     for kind in CONC_KINDS[prop]:
+        if kind in CONC_MODELS:
+            mod, quick, thorough, sims, variants = CONC_MODELS[kind]
+            for cfg in (quick if tier == "quick" else quick + thorough):
+                r = tlc_model(mod, "mc/%s.cfg" % cfg, work, workers=8 if tier == "quick" else 16, timeout=300 if tier == "quick" else 1500)
+                res.states += r["distinct"]
+                res.transitions += r["generated"]
+                res.cmds.append("tlc -config mc/%s.cfg %s.tla" % (cfg, mod))
+                if not r["ok"]:
+                    cex = "%s/replays/%s_model_%s.txt" % (ROOT, prop, cfg)
+                    os.makedirs(ROOT + "/replays", exist_ok=True)
+                    open(cex, "w").write(r["out"][-200000:])
+                    res.viol.append({"prop": prop, "scn": "model:" + cfg, "clauses": ["model:" + ",".join(r["violated"])], "replay": cex, "first_line": 0})
+            if tier == "thorough":
+                for cfg in variants:
+                    r = tlc_model(mod, "mc/%s.cfg" % cfg, work, workers=8, timeout=300)
+                    if r["ok"]:
+                        raise ToolError("variant %s is not flagged by TLC: the invariants are vacuous for it" % cfg)
+                    res.notes.append("variant %s flagged by TLC (%s)" % (cfg, ",".join(r["violated"])))
+            scns, preds = model_schedules(kind, prop, tier, seed, work, res)
+            if scns:
+                r = run_conc(prop, scns, work, "concm_" + kind)
+                res.merge(r)
+                conc_conformance(preds, os.path.join(work, "concm_" + kind + "_trace.ndjson"), res, kind)
         n = {"ping": 150, "chan": 120, "exec": 150, "signal": 60, "blockon": 60}[kind]
         if tier == "thorough":
             n *= 12
@@ -566,6 +694,9 @@ def main():
             rp = json.load(open(args[args.index("--replay") + 1]))
             if rp.get("engine") == "conc":
                 res.merge(run_conc(prop, [rp["scenario"]], work, "replay"))
+            elif rp.get("engine") in ("transient", "signals", "token", "asyncio", "timeout"):
+                import importlib
+                res.merge(importlib.import_module("engine_" + rp["engine"]).replay(prop, rp, work))
             else:
                 res.merge(run_core(prop, [rp["scenario"]], work, "replay"))
         else:
